@@ -40,11 +40,11 @@ Fixpoint try_arg (ls : list limiter) (a : arg) : verdict :=
 
 Definition usize_max : N := 18446744073709551615.
 
-(* MaxCharsCommandSizeLimiter::new_system: ARG_MAX - 2048 (headroom) - 4096 (the file name the kernel copies when it executes
-   the command, up to PATH_MAX) - sum over env of (|k|+1 + |v|+1 + 8) - 16, saturating *)
+(* MaxCharsCommandSizeLimiter::new_system: ARG_MAX - 2048 (headroom) - (2 * 4096 + 256) (the file name the kernel copies when it
+   executes the command, up to PATH_MAX, once more for a "#!" script together with the interpreter line) - sum over env of (|k|+1 + |v|+1 + 8) - 16, saturating *)
 Definition env_size (env : list (N * N)) : N :=
   fold_right (fun kv s => (fst kv + 1) + (snd kv + 1) + 8 + s) 0 env.
-Definition sys_budget (arg_max : N) (env : list (N * N)) : N := arg_max - (2048 + 4096 + env_size env + 16).
+Definition sys_budget (arg_max : N) (env : list (N * N)) : N := arg_max - (2048 + 8448 + env_size env + 16).
 Definition max_single_arg : N := 131072.
 
 Record config := {
@@ -60,7 +60,8 @@ Record config := {
 Definition limiters0 (c : config) : list limiter :=
   (match c_n c with Some n => [LArgs 0 n] | None => [] end) ++
   (match c_L c with Some l => [LLines 1 l] | None => [] end) ++
-  (match c_s c with Some s => [LChars 0 s 0 usize_max] | None => [] end) ++
+  (* with -I, -s is applied to the command line after the line has been put in (fits_system), not here *)
+  (match c_s c with Some s => if c_replace c then [] else [LChars 0 s 0 usize_max] | None => [] end) ++
   [LChars 0 (c_sys c) 8 max_single_arg].
 
 (* CommandBuilderOptions::new: charge the initial arguments; None = "Base command ... too large" *)
@@ -104,7 +105,8 @@ Definition next_out (l : list child) : child := match l with o :: _ => o | [] =>
 
 (* with -I the substituted command line is put to a fresh system limiter before it is run (9eccde5) *)
 Definition fits_system (c : config) (lens : list N) : bool :=
-  forallb (fun l => l + 1 <=? max_single_arg) lens && (fold_right (fun l s => l + 1 + 8 + s) 0 lens <=? c_sys c).
+  (match c_s c with Some s => fold_right (fun l t => l + 1 + t) 0 lens <=? s | None => true end) &&
+  (forallb (fun l => l + 1 <=? max_single_arg) lens && (fold_right (fun l s => l + 1 + 8 + s) 0 lens <=? c_sys c)).
 Definition subst_fits (c : config) (b : list arg) : bool :=
   match b with a :: _ => fits_system c (c_subst c (alen a)) | [] => true end.
 
